@@ -1022,6 +1022,36 @@ example : derivedMethod { name := 0, methods := [(5, 1), (6, 1)], getOverride :=
 example : (derivedAccess { name := 0, getters := [(7, 1)] } 10).res = .err .notFound := by decide
 
 
+/-! ## further entry points (documented behaviour; see findings F-C17-3 … F-C17-7 for where the
+implementation deviated when these were added) -/
+
+/-- a native (Rust) function stored under a metakey is dispatched to exactly like a Koto function:
+same `self`, same arguments, its value is the result — under every metakey and every operation,
+since all operations go through `invoke` -/
+theorem native_entry_same_as_function (tag : Name) (key : MKey) (v : RV) (self : AV) (args : List AV) :
+    invoke tag key (.native v) self args = invoke tag key (.fn (.ret v)) self args := by
+  simp [invoke, invokeAt, Beh.runAt]
+
+/-- packed call arguments (`x(args...)`) and the host API `run_write_op` reach the same dispatch as
+the plain call / the index assignment -/
+theorem entry_points_same (o : Opd) (i : IdxK) :
+    callPacked o = callOp o ∧ apiIndexAssign o i = indexAssign o i := ⟨rfl, rfl⟩
+
+/-- a trailing position in unpacking / `match (others..., last)` on a map object asks `@index` for
+`size - 1` (counted from the end given by `@size`), never for a negative index -/
+theorem match_last_index (m : MapD) (ts ti : Name) (n : Int) (v : RV)
+    (hs : m.metaGet .Size = some (ts, .fn (.ret (.int n))))
+    (hi : m.metaGet .Index = some (ti, .fn (.ret v))) :
+    (matchLast (.map m)).trace.getLast? = some ⟨ti, .mk .Index, m.av, [.int (n - 1)]⟩ ∧
+    (matchLast (.map m)).res = .ok (v.toAV m.av) := by
+  simp [matchLast, hs, hi, invoke_fn, invokeAt, Beh.run, Beh.runAt, CallRes.pass]
+
+/-- the entries of a map literal are data entries: building the literal calls nothing (in
+particular not an `@access_assign` defined earlier in the same literal) and every key is in the data -/
+theorem literal_entries_are_data (l : Layer) :
+    (literalKeys l).trace = [] ∧ (literalKeys l).res = .ok (.keys l.data) := ⟨rfl, rfl⟩
+
+
 /-! ## display and type -/
 
 /-- `@display` is used for rendering and must return a String; without it the rendering is the
